@@ -1,11 +1,20 @@
 //! C28: writer instance-management contract (register / unregister / dispose / write / lookup).
+//!
+//! A share of the keyed writers has a finite RESOURCE_LIMITS max_instances (1-4) and more key values than slots.
+//! Slot model (DDS 1.4 2.2.3.19, 2.2.2.4.2.5, 2.2.2.4.2.11): an operation on a REGISTERED instance needs no new
+//! slot, so it behaves exactly as below the limit (register_instance idempotent, same handle). An operation that
+//! needs a slot (register/write of a key that is not registered) must succeed while fewer than max_instances other
+//! keys can possibly hold a slot, and must fail with OutOfResources (or Timeout, which the specification allows for
+//! a reliable writer) changing nothing once max_instances OTHER keys are registered. In between (slots possibly
+//! still held by unregistered instances - the specification lets the service reclaim them at unregister_instance
+//! but does not say when) both outcomes are accepted and the model follows the outcome.
 use crate::common::*;
 use crate::util::*;
 use dust_dds::dds_async::data_writer::DataWriterAsync;
 use dust_dds::infrastructure::instance::InstanceHandle;
 use dust_dds::infrastructure::listener::NO_LISTENER;
-use dust_dds::infrastructure::qos::{PublisherQos, QosKind};
-use dust_dds::infrastructure::qos_policy::EntityFactoryQosPolicy;
+use dust_dds::infrastructure::qos::{DataWriterQos, PublisherQos, QosKind};
+use dust_dds::infrastructure::qos_policy::{EntityFactoryQosPolicy, Length, ResourceLimitsQosPolicy};
 use dust_dds::infrastructure::status::NO_STATUS;
 use simnet::*;
 use std::collections::{BTreeMap, BTreeSet};
@@ -92,6 +101,8 @@ enum W {
 struct WSpec {
     keyed: bool,
     enabled: bool,
+    /// RESOURCE_LIMITS max_instances of the writer (None = unlimited, the default)
+    max_instances: Option<u32>,
 }
 
 struct Model {
@@ -99,6 +110,38 @@ struct Model {
     enabled: bool,
     st: BTreeMap<u32, St>,
     handle: BTreeMap<u32, InstanceHandle>,
+    max_instances: Option<usize>,
+    reached_limit: bool,
+}
+
+/// what the slot model says about an operation that may need an instance slot
+#[derive(Clone, Copy, Debug, PartialEq, Eq)]
+enum Slot {
+    /// unlimited writer, or the instance is registered (holds its slot), or there is room whatever the service does with unregistered instances
+    MustSucceed,
+    /// max_instances other instances are registered: no slot can be free
+    MustFail,
+    /// slots possibly held by unregistered / unsettled instances: the specification allows either outcome
+    Either,
+}
+
+impl Model {
+    /// (slot verdict for an operation on `key` that registers it, at_limit)
+    fn slot(&self, key: u32) -> (Slot, bool) {
+        let Some(n) = self.max_instances else { return (Slot::MustSucceed, false) };
+        let me = self.st.get(&key).cloned().unwrap_or(St::Never);
+        let others_registered = self.st.iter().filter(|(k, s)| **k != key && **s == St::Registered).count();
+        let others_possible = self.st.iter().filter(|(k, s)| **k != key && **s != St::Never).count();
+        let at_limit = others_possible + usize::from(me != St::Never) >= n;
+        let v = if me == St::Registered || others_possible < n {
+            Slot::MustSucceed
+        } else if others_registered >= n && me != St::Uncertain {
+            Slot::MustFail
+        } else {
+            Slot::Either
+        };
+        (v, at_limit)
+    }
 }
 
 #[derive(Default, Clone)]
@@ -109,6 +152,16 @@ struct Outcome {
     ops_done: BTreeMap<String, u64>,
     checks: u64,
     handles_compared: u64,
+    /// operations on a keyed, enabled, limited writer executed while max_instances keys (possibly) hold a slot
+    ops_at_limit: u64,
+    /// ... of these judged by the oracle
+    checks_at_limit: u64,
+    /// (a) known instance at the limit judged like below the limit, (b) new instance refused, (c) slot reuse after unregister (either outcome accepted)
+    at_limit_known: u64,
+    at_limit_new_refused: u64,
+    slot_reuse_granted: u64,
+    slot_reuse_refused: u64,
+    writers_reaching_limit: u64,
     aborted_at: Option<usize>,
     panic_op: Option<String>,
 }
@@ -150,11 +203,29 @@ async fn scenario(w: World, specs: Vec<WSpec>, ops: Vec<Op>) -> Outcome {
     for s in &specs {
         let p = if s.enabled { &pub_on } else { &pub_off };
         if s.keyed {
-            ws.push(W::Keyed(setup!(p.create_datawriter::<Msg>(&tk, QosKind::Default, NO_LISTENER, NO_STATUS))));
+            let qos = match s.max_instances {
+                Some(n) => QosKind::Specific(DataWriterQos {
+                    resource_limits: ResourceLimitsQosPolicy {
+                        max_samples: Length::Unlimited,
+                        max_instances: Length::Limited(n as i32),
+                        max_samples_per_instance: Length::Unlimited,
+                    },
+                    ..Default::default()
+                }),
+                None => QosKind::Default,
+            };
+            ws.push(W::Keyed(setup!(p.create_datawriter::<Msg>(&tk, qos, NO_LISTENER, NO_STATUS))));
         } else {
             ws.push(W::Keyless(setup!(p.create_datawriter::<Plain>(&tp, QosKind::Default, NO_LISTENER, NO_STATUS))));
         }
-        ms.push(Model { keyed: s.keyed, enabled: s.enabled, st: BTreeMap::new(), handle: BTreeMap::new() });
+        ms.push(Model {
+            keyed: s.keyed,
+            enabled: s.enabled,
+            st: BTreeMap::new(),
+            handle: BTreeMap::new(),
+            max_instances: if s.keyed { s.max_instances.map(|n| n as usize) } else { None },
+            reached_limit: false,
+        });
     }
 
     let mut seq = 0u32;
@@ -234,13 +305,27 @@ async fn scenario(w: World, specs: Vec<WSpec>, ops: Vec<Op>) -> Outcome {
         let ty = if m.keyed { "keyed" } else { "keyless" };
         let en = yn(m.enabled);
         let inst = if m.keyed && m.enabled && op.k != K::Enable { st.name() } else { "n/a" };
-        out.results.insert(format!("{opname}[{ty},enabled={en},inst={inst}]:{got}"));
-        out.shapes.push(format!("{}{}{}{}{}>{}", opname, ty, en, inst, yn(op.with_handle && known.is_some()), got));
+        // slot model: only for keyed, enabled writers with a finite max_instances
+        let limited = m.keyed && m.enabled && m.max_instances.is_some() && op.k != K::Enable;
+        let (slot, at_limit) = if limited { m.slot(op.key) } else { (Slot::MustSucceed, false) };
+        let nmax = m.max_instances.unwrap_or(0);
+        // signatures of unlimited writers stay as they were; limited writers carry at_limit=yes|no (never the value of max_instances)
+        let lim = if limited { format!("at_limit={}|", if at_limit { "yes" } else { "no" }) } else { String::new() };
+        if limited && at_limit {
+            out.ops_at_limit += 1;
+            if !m.reached_limit {
+                m.reached_limit = true;
+                out.writers_reaching_limit += 1;
+            }
+        }
+        let checks_before = out.checks;
+        out.results.insert(format!("{opname}[{ty},enabled={en},{lim}inst={inst}]:{got}"));
+        out.shapes.push(format!("{}{}{}{}{}{}>{}", opname, ty, en, lim, inst, yn(op.with_handle && known.is_some()), got));
         let base_op = opname.trim_end_matches("_w_timestamp").to_string();
         let mut flag = |expected: &str, got: &str, detail: String| {
             out.findings.push(Finding {
                 // the _w_timestamp variants share the implementation: same signature
-                sig: format!("op={base_op}|type={ty}|enabled={en}|inst={inst}|expected={expected}|got={got}"),
+                sig: format!("op={base_op}|type={ty}|enabled={en}|{lim}inst={inst}|expected={expected}|got={got}"),
                 what: format!("{}: expected {expected}, got {got} ({detail})", op.show()),
                 step,
             });
@@ -277,8 +362,16 @@ async fn scenario(w: World, specs: Vec<WSpec>, ops: Vec<Op>) -> Outcome {
         match op.k {
             K::Register => {
                 out.checks += 1;
+                // a reliable writer may also answer Timeout where it may answer OutOfResources (DDS 1.4 2.2.2.4.2.11)
+                let refused = got == "OutOfResources" || got == "Timeout";
                 match &r {
                     Out::Ok(R::Handle(Some(h))) => {
+                        if slot == Slot::MustFail {
+                            flag("OutOfResources", "Some(handle)", format!("max_instances={nmax} and {nmax} other instances are registered: there is no slot for key {}", op.key));
+                        }
+                        if slot == Slot::Either {
+                            out.slot_reuse_granted += 1;
+                        }
                         out.handles_compared += 1;
                         if let Some(prev) = known {
                             if prev != *h {
@@ -291,12 +384,28 @@ async fn scenario(w: World, specs: Vec<WSpec>, ops: Vec<Op>) -> Outcome {
                         m.handle.entry(op.key).or_insert(*h);
                         m.st.insert(op.key, St::Registered);
                     }
+                    // legitimate refusal: nothing changes (the model state of the key stays as it is)
+                    _ if refused && slot == Slot::MustFail => out.at_limit_new_refused += 1,
+                    _ if refused && slot == Slot::Either => out.slot_reuse_refused += 1,
                     Out::Ok(_) => {
                         flag("Some(handle)", &got, "register_instance returns the handle of the sample's key".into());
                         m.st.insert(op.key, St::Uncertain);
                     }
                     _ => {
-                        flag("Some(handle)", &got, "default resource limits: registration cannot run out of resources".into());
+                        match slot {
+                            Slot::MustSucceed if limited => flag(
+                                "Some(handle)",
+                                &got,
+                                if st == St::Registered {
+                                    format!("max_instances={nmax}: key {} is registered already, re-registering it needs no new slot (register_instance is idempotent)", op.key)
+                                } else {
+                                    format!("max_instances={nmax}: fewer than {nmax} other instances were ever registered or written, a slot is free for key {}", op.key)
+                                },
+                            ),
+                            Slot::MustSucceed => flag("Some(handle)", &got, "default resource limits: registration cannot run out of resources".into()),
+                            Slot::MustFail => flag("OutOfResources", &got, format!("max_instances={nmax} and {nmax} other instances are registered")),
+                            Slot::Either => flag("Some(handle)_or_OutOfResources", &got, format!("max_instances={nmax}, slots possibly held by unregistered instances")),
+                        }
                         m.st.insert(op.key, St::Uncertain);
                     }
                 }
@@ -372,13 +481,39 @@ async fn scenario(w: World, specs: Vec<WSpec>, ops: Vec<Op>) -> Outcome {
             },
             K::Write => {
                 // per DDS (and the API doc) a write of an unregistered key registers it implicitly
+                let refused = got == "OutOfResources" || got == "Timeout";
+                if limited && slot != Slot::Either {
+                    out.checks += 1;
+                }
                 if r.is_ok() {
+                    if slot == Slot::MustFail {
+                        flag("OutOfResources", "Ok", format!("max_instances={nmax} and {nmax} other instances are registered: there is no slot for key {}", op.key));
+                    }
+                    if slot == Slot::Either {
+                        out.slot_reuse_granted += 1;
+                    }
                     m.st.insert(op.key, St::Registered);
+                } else if refused && slot == Slot::MustFail {
+                    // legitimate refusal: nothing changes
+                    out.at_limit_new_refused += 1;
+                } else if refused && slot == Slot::Either {
+                    out.slot_reuse_refused += 1;
                 } else {
+                    // the result of write is otherwise not judged (property text); with unlimited sample limits and no new
+                    // instance needed it can however not run out of resources
+                    if limited && got == "OutOfResources" {
+                        flag("Ok", &got, format!("max_instances={nmax}: key {} needs no new slot or a slot is free; max_samples and max_samples_per_instance are unlimited", op.key));
+                    }
                     m.st.insert(op.key, St::Uncertain);
                 }
             }
             K::Enable => {}
+        }
+        if limited && at_limit && out.checks > checks_before {
+            out.checks_at_limit += out.checks - checks_before;
+            if st == St::Registered {
+                out.at_limit_known += 1;
+            }
         }
     }
     out
@@ -391,11 +526,21 @@ fn plain(seq: u32) -> Plain {
 // ------------------------------------------------------------------------------------------
 
 fn gen_case(rng: &mut Rng, thorough: bool) -> (Vec<WSpec>, Vec<Op>) {
-    let mut specs = vec![WSpec { keyed: rng.chance(0.7), enabled: rng.chance(0.6) }];
+    let mut specs = vec![WSpec { keyed: rng.chance(0.7), enabled: rng.chance(0.6), max_instances: None }];
     if rng.chance(0.5) {
-        specs.push(WSpec { keyed: !specs[0].keyed || rng.chance(0.3), enabled: rng.chance(0.5) });
+        specs.push(WSpec { keyed: !specs[0].keyed || rng.chance(0.3), enabled: rng.chance(0.5), max_instances: None });
     }
-    let nkeys = 1 + rng.below(4) as u32;
+    // half of the keyed writers get a finite RESOURCE_LIMITS max_instances of 1-4
+    for s in specs.iter_mut() {
+        if s.keyed && rng.chance(0.5) {
+            s.max_instances = Some(1 + rng.below(4) as u32);
+        }
+    }
+    let nkeys = match specs.iter().filter_map(|s| s.max_instances).max() {
+        // as many keys as slots, or up to two more (new instances at the limit)
+        Some(n) => (n + rng.below(3) as u32).max(2),
+        None => 1 + rng.below(4) as u32,
+    };
     let n = 8 + rng.usize(if thorough { 60 } else { 30 });
     let mut ops = Vec::new();
     let mut enabled: Vec<bool> = specs.iter().map(|s| s.enabled).collect();
@@ -414,6 +559,22 @@ fn gen_case(rng: &mut Rng, thorough: bool) -> (Vec<WSpec>, Vec<Op>) {
             ts: if k != K::Lookup && k != K::Enable && rng.chance(0.35) { Some(*rng.pick(&[0i64, -1000, 1000, -3_600_000, 5])) } else { None },
             with_handle: rng.chance(0.3),
         });
+    }
+    // limited writers: in 60 % of the cases the history starts (after the enable, if there is one) by filling
+    // most or all of the slots, so that the rest of the history runs at the limit
+    for (w, s) in specs.iter().enumerate() {
+        let Some(n) = s.max_instances else { continue };
+        if !rng.chance(0.6) {
+            continue;
+        }
+        let at = if s.enabled { 0 } else { ops.iter().position(|o| o.w == w && o.k == K::Enable).map(|p| p + 1).unwrap_or(0) };
+        let mut keys: Vec<u32> = (0..nkeys).collect();
+        rng.shuffle(&mut keys);
+        let fill = if rng.chance(0.8) { n.min(nkeys) } else { n.min(nkeys).saturating_sub(1) };
+        for (i, key) in keys.into_iter().take(fill as usize).enumerate() {
+            let k = if rng.chance(0.7) { K::Register } else { K::Write };
+            ops.insert(at + i, Op { w, k, key, ts: if rng.chance(0.2) { Some(0) } else { None }, with_handle: false });
+        }
     }
     (specs, ops)
 }
@@ -451,7 +612,17 @@ fn specs_json(specs: &[WSpec]) -> Json {
         specs
             .iter()
             .enumerate()
-            .map(|(i, s)| Json::Str(format!("w{i}: {} type, created {}", if s.keyed { "keyed (Msg)" } else { "keyless (Plain)" }, if s.enabled { "enabled" } else { "not enabled" })))
+            .map(|(i, s)| {
+                Json::Str(format!(
+                    "w{i}: {} type, created {}{}",
+                    if s.keyed { "keyed (Msg)" } else { "keyless (Plain)" },
+                    if s.enabled { "enabled" } else { "not enabled" },
+                    match s.max_instances {
+                        Some(n) if s.keyed => format!(", resource_limits.max_instances={n}"),
+                        _ => String::new(),
+                    }
+                ))
+            })
             .collect(),
     )
 }
@@ -537,6 +708,15 @@ pub fn run(shard: &Shard) -> Report {
         }
         rep.stat("oracle_checks", o.checks as i128);
         rep.stat("handles_compared", o.handles_compared as i128);
+        rep.stat("limited_writers", specs.iter().filter(|s| s.keyed && s.max_instances.is_some()).count() as i128);
+        rep.stat("limited_writers_reaching_limit", o.writers_reaching_limit as i128);
+        rep.stat("cases_reaching_limit", i128::from(o.writers_reaching_limit > 0));
+        rep.stat("ops_at_limit", o.ops_at_limit as i128);
+        rep.stat("oracle_checks_at_limit", o.checks_at_limit as i128);
+        rep.stat("at_limit_known_instance_judged", o.at_limit_known as i128);
+        rep.stat("at_limit_new_instance_refused", o.at_limit_new_refused as i128);
+        rep.stat("slot_reuse_after_unregister_granted", o.slot_reuse_granted as i128);
+        rep.stat("slot_reuse_after_unregister_refused", o.slot_reuse_refused as i128);
         rep.stat("polls", stats.polls as i128);
         if o.checks > 0 {
             rep.nontrivial(hash_strs(o.shapes.iter().map(|s| s.as_str())));
